@@ -18,10 +18,12 @@ from .core import strip_docstring
 TABLE = Path(__file__).resolve().parent / "unused_params.json"
 
 
-def unread_params(f):
-    """[(position, name)] of named parameters never loaded in the body (nested functions count as the body)"""
+def unread_params(f, include_trivial=False):
+    """[(position, name)] of named parameters never loaded in the body (nested functions count as the body); functions whose body is
+    trivial (pass / raise / return a constant) report nothing unless include_trivial (the table records them, so that the same function
+    with its constant named in a local is still excused)"""
     body = strip_docstring(f.body)
-    trivial = all(isinstance(st, (ast.Pass, ast.Raise)) or (isinstance(st, ast.Expr) and isinstance(st.value, ast.Constant))
+    trivial = not include_trivial and all(isinstance(st, (ast.Pass, ast.Raise)) or (isinstance(st, ast.Expr) and isinstance(st.value, ast.Constant))
                   or (isinstance(st, ast.Return) and (st.value is None or isinstance(st.value, ast.Constant))) for st in body)
     if trivial:
         return []
@@ -45,7 +47,7 @@ def generate(repo):
     out = []
     for m in repo.modules.values():
         for q, f in m.functions():
-            for i, p in unread_params(f):
+            for i, p in unread_params(f, include_trivial=True):
                 out.append([m.name, q, i, p])
     return sorted(out)
 
